@@ -119,7 +119,8 @@ class Stubs:
 
     def __init__(self, c, with_alpha=True):
         self.c = c
-        self.held = num_map(c, 'holdings', fields=REPORT, gen=lambda r: float(r.choice([-50, 10, 100, 250])), pgen=lambda r: r.random() < 0.5)
+        # (market values that can net to exactly zero over two or three holdings: a dollar-neutral book is still a book)
+        self.held = num_map(c, 'holdings', fields=REPORT, gen=lambda r: float(r.choice([-50, 50, 10, 100, -100, 250])), pgen=lambda r: r.random() < 0.5)
         self.alpha = num_map(c, 'alpha', gen=lambda r: r.choice([0.0, 0.25, 0.5, 1.0, -0.5, 0.123456, 0.333333]), pgen=lambda r: r.random() < 0.5)
         self.uni = UniverseStub(c)
         self.sizer_calls, self.alpha_calls, self.broker_calls = [], [], []
@@ -131,6 +132,20 @@ class Stubs:
                 if c.mode == 'sym':
                     return S.held.copy()          # a fresh dictionary object each call, as the real broker returns
                 return {k: dict(v) for k, v in S.held.items()}
+
+            # the rest of the broker's read interface, consistent with the holdings report (C01/C02): a PCM may consult it
+            def get_portfolio_total_market_value(self, pid):
+                S.broker_calls.append(pid)
+                if c.mode == 'sym':
+                    return SymNum(heap.SUM(DOM(S.held), _m(S.held).cols['market_value']))
+                return sum(v['market_value'] for v in S.held.values())
+
+            def get_portfolio_cash_balance(self, pid):
+                S.broker_calls.append(pid)
+                return c.real('portfolio_cash', lambda r: r.choice([0.0, 1000.0, 25000.5]))
+
+            def get_portfolio_total_equity(self, pid):
+                return self.get_portfolio_cash_balance(pid) + self.get_portfolio_total_market_value(pid)
 
         class Alpha:
             def __call__(self, dt):
@@ -197,6 +212,14 @@ def pcm_call(c):
     # between), must not influence this one
     held_now = S.held
     S.held = num_map(c, 'holdings_at_an_earlier_call', fields=REPORT, gen=lambda r: float(r.choice([-50, 10, 100])), pgen=lambda r: r.random() < 0.5)
+    alpha_now = S.alpha
+    if c.mode == 'conc':
+        # ... natively also: the alpha model said something ELSE then (it weighted assets it is silent about now), and on
+        # half of the runs the holdings - hence the full asset list - were the same as now
+        if c.bool('alpha_said_something_else_at_the_earlier_call'):
+            S.alpha = num_map(c, 'alpha_at_an_earlier_call', gen=lambda r: r.choice([0.25, 0.5, 1.0, -0.5]), pgen=lambda r: r.random() < 0.6)
+        if c.bool('same_holdings_at_the_earlier_call'):
+            S.held = held_now
     if c.mode == 'sym':
         register_loops(quiet=True)
     try:
@@ -204,6 +227,7 @@ def pcm_call(c):
     finally:
         unregister_loops()
     S.held = held_now
+    S.alpha = alpha_now
     del S.sizer_calls[:], S.alpha_calls[:], S.broker_calls[:], S.uni.queries[:]
     stats = {'target_allocations': []}
     if c.mode == 'sym':
